@@ -6,7 +6,8 @@ from .stmt import StmtMixin
 from .calls import CallMixin
 from .builtins_ import BuiltinMixin
 from .specs import SpecMixin
+from .symcont import SymContMixin
 
 
-class Engine(SpecMixin, BuiltinMixin, CallMixin, StmtMixin, ExprMixin, BytesMixin, EngineBase):
+class Engine(SymContMixin, SpecMixin, BuiltinMixin, CallMixin, StmtMixin, ExprMixin, BytesMixin, EngineBase):
     pass
